@@ -773,6 +773,53 @@ func ruleCmd(c *Ctx) {
 				}
 			}
 			add(key, b.rel(uf.Pos()), bad == "", "os.Stat error -> error; IsDir() -> error", bad)
+		}
+		// the path that is kept for reading is the path that was checked: os.Stat follows
+		// symbolic links before "..", filepath.Abs / Clean remove ".." lexically, so
+		// "link/../x.json" names one file to the check and another to the later read
+		if uf := b.method(b.Cmd, "FileFlag", "UnmarshalFlag"); uf != nil && len(uf.Params) >= 2 {
+			key := "(iv) FileFlag.UnmarshalFlag keeps the path it checked"
+			bad := ""
+			nStore := 0
+			allInstrs(uf, func(i ssa.Instruction) {
+				st, ok := i.(*ssa.Store)
+				if !ok || st.Addr != ssa.Value(uf.Params[0]) {
+					return
+				}
+				nStore++
+				v := st.Val
+				for d := 0; d < 4; d++ {
+					switch x := v.(type) {
+					case *ssa.ChangeType:
+						v = x.X
+						continue
+					case *ssa.Convert:
+						v = x.X
+						continue
+					}
+					break
+				}
+				if v == ssa.Value(uf.Params[1]) {
+					return
+				}
+				if ex, ok := v.(*ssa.Extract); ok {
+					if call, ok := ex.Tuple.(*ssa.Call); ok {
+						bad = "the stored path is the result of " + calleeLabel(&call.Call) + ", not the string that was handed to os.Stat: a path through a symbolic link and \"..\" is checked as one file and read as another"
+						return
+					}
+				}
+				if call, ok := v.(*ssa.Call); ok {
+					bad = "the stored path is the result of " + calleeLabel(&call.Call) + ", not the string that was handed to os.Stat: a path through a symbolic link and \"..\" is checked as one file and read as another"
+					return
+				}
+				bad = "the stored path is " + describeValue(v) + ", not the flag's value"
+			})
+			if nStore == 0 {
+				bad = "the flag's value is never stored"
+			}
+			add(key, b.rel(uf.Pos()), bad == "", "*f = FileFlag(value): the very string os.Stat was given", bad)
+		}
+		if uf := b.method(b.Cmd, "FileFlag", "UnmarshalFlag"); uf != nil {
 		} else {
 			l.add("R-CMD", lab, "(iv) FileFlag.UnmarshalFlag", "", Undecided, "method not found", false)
 		}
